@@ -15,6 +15,7 @@ VARIABLES lay, done, src
 
 Elements == { El("plain", 0), El("lcomment", 0), El("define", 0), El("bcomment", 1), El("bcomment", 3),
               El("definecont", 1), El("definecont", 2), El("textcont", 1), El("inactive", 2), El("active", 1),
+              El("undef", 0), El("undefmissing", 0), El("else", 1),
               Inc(<<El("plain", 0)>>), Inc(<<El("definecont", 1), El("plain", 0)>>),
               Inc(<<Inc(<<El("textcont", 1)>>), El("plain", 0)>>) }
 Pre == { <<>>, <<El("definecont", 1)>>, <<El("bcomment", 3), El("lcomment", 0)>> }
